@@ -37,6 +37,35 @@ Definition nomination_ok (c : cache) : Prop :=
               /\ is_available (r_spec i) = true /\ r_perr i = false
               /\ (nominate_gate i = true -> is_matchable i = true).
 
+(* the reserved ("restricted") dimensions of a reservation, read off the Reservation object (or
+   operating pod) delivered last: the resources it reserves; when it is Restricted (or an operating
+   pod) and carries well-formed restricted-options naming at least one resource it reserves, only
+   the named ones *)
+Definition restricting (s : rspec) : bool :=
+  ((s_policy s =? 2) || (s_kind s =? 1)) && (s_opts s =? 1).
+Definition names_spec (s : rspec) (nm : list Z) : Prop :=
+  forall k, In k nm <->
+    (hask k (s_alloc s) = true
+     /\ (restricting s = true ->
+         (exists k', hask k' (s_alloc s) = true /\ In k' (s_optres s)) -> In k (s_optres s))).
+
+(* every cached reservation follows the object delivered last for its uid (S: the delivered
+   objects, newest first): reserved dimensions, reserved amounts, allocate policy *)
+Definition specs_followed (S : list rspec) (c : cache) : Prop :=
+  forall i, In i (infos c) ->
+    exists s, last_spec (r_uid i) S = Some s
+              /\ names_spec s (r_names i) /\ r_allocatable i = s_alloc s
+              /\ s_policy (r_spec i) = s_policy s.
+
+(* a reservation the informer reported deleted is referenced by no per-node index; it is gone from
+   the cache altogether when the delete event carried its node name (otherwise what may be left
+   is an entry without node) *)
+Definition dead_gone (D : dead) (c : cache) : Prop :=
+  forall u hard, In (u, hard) D ->
+    (forall n, idx_mem n u (on_node c) = false /\ idx_mem n u (matchable c) = false
+               /\ idx_mem n u (alloc_idx c) = false)
+    /\ (forall i, find_info u (infos c) = Some i -> hard = false /\ r_node i = 0).
+
 (* restricted fit: specification of the verdict *)
 Definition dim_within (i : rinfo) (req pre : res) (k : Z) : Prop :=
   hask k req = true -> getv k req <> 0 ->
@@ -135,6 +164,31 @@ Definition v_ghost_ok (L : list preq) (v : iview) : bool :=
              | None => false
              end) (v_assigned v).
 
+(* the dumped reservation follows the object delivered last for its uid *)
+Definition names_okb (s : rspec) (nm : list Z) : bool :=
+  forallb (fun k => memZ k (names_of s)) nm && forallb (fun k => memZ k nm) (names_of s).
+Definition v_names_ok (S : list rspec) (v : iview) : bool :=
+  match last_spec (v_uid v) S with
+  | Some s => names_okb s (v_names v)
+  | None => false
+  end.
+Definition v_amounts_ok (S : list rspec) (v : iview) : bool :=
+  match last_spec (v_uid v) S with
+  | Some s => eq_listZ (v_allocatable v) (pvals (s_alloc s)) && (v_policy v =? s_policy s)
+  | None => false
+  end.
+
+(* no index entry, and no cached reservation with a node, for a reservation reported deleted *)
+Definition is_dead (D : dead) (u : Z) : bool := existsb (fun d : Z * bool => fst d =? u) D.
+Definition dead_entry_ok (D : dead) (e : Z * list Z) : bool :=
+  forallb (fun u => negb (is_dead D u)) (snd e).
+Definition o_dead_ok (D : dead) (o : cview) : bool :=
+  forallb (dead_entry_ok D) (o_onnode o) && forallb (dead_entry_ok D) (o_matchable o)
+  && forallb (dead_entry_ok D) (o_alloc o)
+  && forallb (fun v => negb (existsb (fun d : Z * bool =>
+                                        (fst d =? v_uid v) && (snd d || negb (v_node v =? 0))) D))
+             (o_infos o).
+
 (* clause numbers:
      1 ledger exact (allocated = held)      2 ledger bounds (0 <= allocated <= held)
      3 index soundness                      4 index completeness
@@ -142,17 +196,28 @@ Definition v_ghost_ok (L : list preq) (v : iview) : bool :=
      7 IsMatchable agrees with its definition
      9 recorded requests = last delivered object (with 1: allocated = sum over the assigned pods
        of mask(names, request of the last delivered object))
-   [stable] : the history so far kept node names stable (hypothesis of 3, 4, 6)
-   [last]   : Some L while every delivery so far was recorded consistently (hypothesis of 9) *)
-Definition prop_view (stable : bool) (last : option (list preq)) (o : cview) : Z :=
+    12 reserved dimensions = those of the Reservation object / operating pod delivered last
+       (with 1 and 9: allocated = sum over the assigned pods of the last delivered request, in the
+       reserved dimensions of the last delivered reservation object)
+    13 reserved amounts (allocatable) and allocate policy = those of the object delivered last
+    14 a reservation the informer reported deleted is in no per-node index (nor cached with a node)
+   [stable] : the history so far kept node names stable (hypothesis of 3, 4, 6, 14)
+   [last]   : Some L while every delivery so far was recorded consistently (hypothesis of 9)
+   [S]      : the reservation objects delivered so far, newest first
+   [D]      : the reservations reported deleted and not delivered again since *)
+Definition prop_view (stable : bool) (last : option (list preq)) (S : list rspec) (D : dead)
+           (o : cview) : Z :=
   if negb (forallb v_bounds_ok (o_infos o)) then 2
   else if negb (forallb v_exact_ok (o_infos o)) then 1
   else if match last with Some L => negb (forallb (v_ghost_ok L) (o_infos o)) | None => false end then 9
+  else if negb (forallb (v_names_ok S) (o_infos o)) then 12
+  else if negb (forallb (v_amounts_ok S) (o_infos o)) then 13
   else if negb (forallb v_once_ok (o_infos o)) then 5
   else if negb (forallb v_matchable_def (o_infos o)) then 7
   else if stable && negb (o_sound o) then 3
   else if stable && negb (o_complete o) then 4
   else if stable && negb (o_visit_ok o) then 6
+  else if stable && negb (o_dead_ok D o) then 14
   else 0.
 
 (* a scheduling cycle that put pod pu into reservation t: judged on the dumps before (a) and
